@@ -685,7 +685,11 @@ func (x *runner) oracle(c *dcase, o obs, via string) []string {
 			x.fail(pre+kname+"/unexpected-output", "the mux wrote something for a message or presence", c)
 		}
 		if len(o.Events) != len(want) {
-			x.fail(pre+kname+"/wrong-handlers", fmt.Sprintf("expected %d handler invocations %v, got %s", len(want), want, evSummary(o.Events)), c)
+			key := "/wrong-handlers"
+			if closeIdx == 0 {
+				key = "/empty-stanza-wrong-handler"
+			}
+			x.fail(pre+kname+key, fmt.Sprintf("expected %d handler invocations %v, got %s", len(want), want, evSummary(o.Events)), c)
 			return classes
 		}
 		for j, ev := range o.Events {
